@@ -105,7 +105,7 @@ type Event struct {
 	Lamport uint32
 	Frame   uint32 // claimed frame
 	Parents []int
-	Self    int // -1 if none
+	Self    int    // -1 if none
 	Anc     Bits   // ancestors-or-self
 	Forked  uint64 // bit ci set <=> two different events of validator ci with equal seq are in Anc
 }
